@@ -466,7 +466,8 @@ func ruleStoreNonEmpty(c *Ctx) {
 				continue
 			}
 			if g, isCall := v.(*ssa.Call); isCall {
-				if cal := g.Call.StaticCallee(); cal != nil && cal.Name() == "clone" {
+				// a copy of an existing aggregate: a method of the aggregate type that returns a new object of the same type
+				if cal := g.Call.StaticCallee(); cal != nil && cal.Signature.Recv() != nil && types.Identical(cal.Signature.Recv().Type(), v.Type()) && returnsFreshAlloc(cal) {
 					c.S.Trivial("R-store-nonempty", key, c.Pos(st.Pos()), "a clone of an existing (non-empty) aggregate")
 					continue
 				}
